@@ -82,7 +82,10 @@ func (g *c16gen) layout(ts []string) string {
 	var b strings.Builder
 	for i, t := range ts {
 		if i > 0 {
-			switch g.r.Intn(8) {
+			switch g.r.Intn(9) {
+			case 8: // a comment LINE that looks like the module header, or like a preamble definition, but is not on the first line
+				b.WriteString(g.r.Pick([]string{"\n;; $MODULE m\n", "\n;; $MODULE other.lisp\r\n", "\n;; $A 5\n"}))
+				g.hist["header-looking-comment-line"]++
 			case 0:
 				b.WriteString("\n")
 			case 1:
